@@ -537,6 +537,10 @@ impl BigUint {
 				for _ in 0..len {
 					v.push(u64::deserialize(read)?);
 				}
+				if v.is_empty() {
+					// `Large` always holds at least one limb
+					return Err(FendError::DeserializationError);
+				}
 				Self::Large(v)
 			}
 			_ => return Err(FendError::DeserializationError),
